@@ -12,6 +12,7 @@ import (
 	"io"
 	"math/rand"
 	"os"
+	"os/exec"
 	"path/filepath"
 	"runtime"
 	"strconv"
@@ -23,6 +24,7 @@ import (
 	"git.metabarcoding.org/obitools/obitools4/obitools4/pkg/obiiter"
 	"git.metabarcoding.org/obitools/obitools4/obitools4/pkg/obioptions"
 	"git.metabarcoding.org/obitools/obitools4/obitools4/pkg/obiseq"
+	"git.metabarcoding.org/obitools/obitools4/obitools4/pkg/obitools/obiconvert"
 )
 
 // Case lines (generator form; Exec appends ` | <data for the model>` and ignores it on replay):
@@ -46,6 +48,7 @@ type sink struct {
 	buf        bytes.Buffer
 	closes     int
 	afterClose int
+	calls      []int // size of every Write call received (what bufio.Writer decided to hand over)
 }
 
 func (s *sink) Write(p []byte) (int, error) {
@@ -54,6 +57,7 @@ func (s *sink) Write(p []byte) (int, error) {
 	if s.closes > 0 {
 		s.afterClose++
 	}
+	s.calls = append(s.calls, len(p))
 	return s.buf.Write(p)
 }
 func (s *sink) Close() error {
@@ -330,6 +334,9 @@ type c04case struct {
 	pl       int
 	arrival  []c04chunk
 	withQual bool
+	au       bool // csv: CSVAutoColumn (obicsv --auto)
+	cmd      bool // paired output through obiconvert.CLIWriteBioSequences with a parsed command line (child process)
+	ap       int  // 1: the output file exists and is appended to; 2: it exists (longer than the output) and is overwritten
 }
 
 func (c *c04case) options() []obiformats.WithOption {
@@ -339,6 +346,12 @@ func (c *c04case) options() []obiformats.WithOption {
 		b := func(i int) bool { return c.csvBits[i] == '1' }
 		o = append(o, obiformats.CSVId(b(0)), obiformats.CSVCount(b(1)), obiformats.CSVTaxon(b(2)), obiformats.CSVDefinition(b(3)),
 			obiformats.CSVSequence(b(4)), obiformats.CSVQuality(b(5)), obiformats.CSVNAValue(c.na), obiformats.CSVKeys(c.keys))
+		if c.au {
+			o = append(o, obiformats.CSVAutoColumn(true))
+		}
+	}
+	if c.ap == 1 {
+		o = append(o, obiformats.OptionsAppendFile(true))
 	}
 	return o
 }
@@ -374,6 +387,16 @@ func c04parse(line string) (*c04case, bool) {
 				c.se = v == "1"
 			case "p":
 				c.paired = v == "1"
+			case "au":
+				c.au = v == "1"
+			case "cmd":
+				c.cmd = v == "1"
+			case "ap":
+				n, err := strconv.Atoi(v)
+				if err != nil || n < 0 || n > 2 {
+					return nil, false
+				}
+				c.ap = n
 			case "pl":
 				n, err := strconv.Atoi(v)
 				if err != nil || n < 0 || n > 64 {
@@ -580,6 +603,8 @@ func (c04) Gen(rng *rand.Rand, tier string, emit func(string)) {
 		z, se, paired    bool
 		csv              string
 		pl               int
+		au, cmd          bool
+		ap               int
 	}
 	one := func(w string, g gopt, ch []c04chunk) {
 		parts := make([]string, len(ch))
@@ -610,6 +635,15 @@ func (c04) Gen(rng *rand.Rand, tier string, emit func(string)) {
 		if g.pl > 0 {
 			pl = fmt.Sprintf(" pl=%d", g.pl)
 		}
+		if g.au && w == "csv" {
+			pl += " au=1"
+		}
+		if g.cmd && w != "csv" {
+			pl += " cmd=1"
+		}
+		if g.ap > 0 {
+			pl += fmt.Sprintf(" ap=%d", g.ap)
+		}
 		emit(fmt.Sprintf("%s w=%d z=%d se=%d%s f=%d p=%d%s %s", w, g.workers, b2(g.z), b2(g.se), extra, g.flavour, b2(g.paired), pl, strings.Join(parts, " ")))
 	}
 	simple := func(orders []int, sizes map[int]int) []c04chunk {
@@ -618,6 +652,67 @@ func (c04) Gen(rng *rand.Rand, tier string, emit func(string)) {
 			ch[i] = c04chunk{o, sizes[o], "0"}
 		}
 		return ch
+	}
+	// adversarial arrival orders of n batches at the writer goroutine (one formatting worker: the order is forced)
+	adversarial := func(kind, n int) []c04chunk {
+		var orders []int
+		switch kind {
+		case 0: // reverse: everything is buffered, then one drain of n-1 chunks
+			for k := n - 1; k >= 0; k-- {
+				orders = append(orders, k)
+			}
+		case 1: // two interleaved runs 0,h,1,h+1,…: the buffer grows to n/2 and every second arrival drains nothing
+			h := (n + 1) / 2
+			for k := 0; k < h; k++ {
+				orders = append(orders, k)
+				if h+k < n {
+					orders = append(orders, h+k)
+				}
+			}
+		default: // last first, then in order
+			orders = append(orders, n-1)
+			for k := 0; k < n-1; k++ {
+				orders = append(orders, k)
+			}
+		}
+		ch := make([]c04chunk, n)
+		for i, o := range orders {
+			ch[i] = c04chunk{o, 1, "0"}
+			if o%97 == 5 {
+				ch[i].n = 0
+			}
+		}
+		return ch
+	}
+	for wi, w := range writers {
+		// column detection of obicsv --auto, command-level paired output, existing output files, adversarial orders
+		sz := map[int]int{0: 2, 1: 3, 2: 1, 3: 0, 4: 2}
+		if w == "csv" {
+			for _, fl := range []int{1, 2, 3} {
+				one(w, gopt{flavour: fl, au: true, csv: "csv=100010 na=4e41 keys=~"}, simple([]int{0, 1, 2, 3, 4}, sz))
+				one(w, gopt{flavour: fl, au: true, csv: "csv=100010 na=2d keys=" + hx0("nope") + "/" + hx0("note")}, simple([]int{2, 0, 1, 4, 3}, sz))
+				one(w, gopt{flavour: fl, au: true, workers: 4, z: fl == 2, csv: "csv=111111 na=4e41 keys=~"}, simple([]int{4, 3, 2, 1, 0}, sz))
+				one(w, gopt{flavour: fl, au: true, csv: "csv=010000 na=4e41 keys=~"}, simple([]int{3, 0, 1, 2}, sz))
+			}
+			one(w, gopt{flavour: 0, au: true, csv: "csv=100010 na=4e41 keys=~"}, simple([]int{1, 0}, sz))
+		} else {
+			for _, se := range []bool{false, true} {
+				one(w, gopt{flavour: 1, cmd: true, paired: true, se: se}, simple([]int{0, 1, 2}, sz))
+				one(w, gopt{flavour: 2, cmd: true, paired: true, se: se, z: true}, simple([]int{2, 1, 0, 4, 3}, sz))
+				one(w, gopt{flavour: 1, cmd: true, paired: true, se: se}, []c04chunk{{0, 2, "0"}, {1, 3, "e"}, {2, 1, "0"}})
+			}
+		}
+		for ap := 1; ap <= 2; ap++ {
+			one(w, gopt{flavour: 1, ap: ap, csv: "csv=100010 na=4e41 keys=~"}, simple([]int{1, 0, 2}, sz))
+			one(w, gopt{flavour: 2, ap: ap, paired: true, z: ap == 1 && w != "csv", csv: "csv=100010 na=4e41 keys=~"}, simple([]int{2, 0, 1}, sz))
+		}
+		if tier == "thorough" {
+			one(w, gopt{flavour: wi % 2, csv: "csv=100010 na=4e41 keys=~"}, adversarial((wi+rng.Intn(3))%3, 10000))
+			one(w, gopt{flavour: 1, z: true, csv: "csv=100010 na=4e41 keys=~"}, adversarial((wi+1)%3, 2000))
+		}
+		for kind := 0; kind < 3; kind++ {
+			one(w, gopt{flavour: kind % 2, z: kind == 2, csv: "csv=100010 na=4e41 keys=~"}, adversarial(kind, 300))
+		}
 	}
 	randCsv := func() string {
 		bits := []byte("100010")
@@ -811,6 +906,14 @@ func (c04) Gen(rng *rand.Rand, tier string, emit func(string)) {
 		if tier == "thorough" && rng.Intn(6) == 0 {
 			g.pl = 2 + rng.Intn(7)
 		}
+		if w == "csv" && g.pl == 0 && !g.paired && rng.Intn(3) == 0 {
+			g.au = true
+			for i := range ch {
+				if strings.HasPrefix(ch[i].l, "b") {
+					ch[i].l = "0"
+				}
+			}
+		}
 		one(w, g, ch)
 	}
 }
@@ -868,6 +971,30 @@ func (c04) Exec(line string) (string, []Fail) {
 	stat(fmt.Sprintf("flavour:%d", c.flavour))
 	opts := c.options()
 	opt := obiformats.MakeOptions(opts)
+	if c.au && c.w == "csv" && len(c.arrival) > 0 {
+		// naive reference of the column detection: sorted union of the non-map attribute keys of the first batch delivered
+		auto := c04autoKeys(c.records(c.arrival[0], opt))
+		opt = obiformats.MakeOptions(append(append([]obiformats.WithOption{}, opts...), obiformats.CSVKeys(auto)))
+		stat("csv-auto")
+		if len(auto) > 1 {
+			stat("csv-auto: >=2 detected columns")
+		}
+		if len(c.keys) > 0 {
+			stat("csv-auto: with explicit keys")
+		}
+		if c.arrival[0].order != 0 {
+			stat("csv-auto: first batch delivered is not batch 0")
+		}
+	}
+	if c.cmd {
+		stat("command-level paired output")
+		if os.Getenv("C04_CHILD") != "" {
+			return c04cmdChild(c), nil
+		}
+	}
+	if c.ap > 0 {
+		stat(fmt.Sprintf("existing output file: mode %d", c.ap))
+	}
 	nb := len(c.arrival)
 	shift := int(obioptions.OutputQualityShift())
 
@@ -928,6 +1055,7 @@ func (c04) Exec(line string) (string, []Fail) {
 			stat("case:small+large chunks compressed")
 		}
 	}
+	var pairedOut []byte
 	keys := "~"
 	if len(c.keys) > 0 {
 		hk := make([]string, len(c.keys))
@@ -960,6 +1088,42 @@ func (c04) Exec(line string) (string, []Fail) {
 	if nb < 2 {
 		caseTrivial = true
 	}
+	anyEmpty := false
+	for i := range descs {
+		for _, r := range descs[i] {
+			anyEmpty = anyEmpty || len(r.seq) == 0
+		}
+		if c.paired {
+			for _, r := range mateDescs[i] {
+				anyEmpty = anyEmpty || len(r.seq) == 0
+			}
+		}
+	}
+	if c.cmd {
+		// the real command line in a child process (a fatal outcome leaves goroutines and pipe registrations behind)
+		res := c04cmdParent(gen)
+		var fails []Fail
+		seqw := w == "fasta" || w == "fastq"
+		switch {
+		case res == "fatal":
+			if !(seqw && anyEmpty) {
+				fails = append(fails, Fail{Sig: w + ".cmd-paired.fatal", Text: "the command died although no sequence is empty"})
+			}
+		case strings.HasPrefix(res, "closes="):
+			if seqw && anyEmpty {
+				fails = append(fails, Fail{Sig: w + ".cmd-paired.out-of-step", Text: "a sequence is empty and the command wrote the pair of files: a record is missing from one file only"})
+			}
+			for _, t := range strings.Fields(res) {
+				if strings.HasPrefix(t, "out2=") {
+					pairedOut, _ = unhx(t[5:])
+				}
+			}
+			fails = append(fails, c04Oracle(c, opt, res, byOrder, matesByOrder, texts, nil, pairedOut)...)
+		default:
+			fails = append(fails, Fail{Sig: w + ".outcome", Text: "command did not complete: " + res})
+		}
+		return res, fails
+	}
 	if fatalFmt {
 		// a formatter dies (log.Fatalf on an empty sequence): the whole-writer run would leave its goroutines behind
 		stat("formatter-fatal")
@@ -967,8 +1131,7 @@ func (c04) Exec(line string) (string, []Fail) {
 	}
 
 	var rows [][]string
-	var pairedOut []byte
-	res := guardT(20*time.Second, func() string {
+	res := guardT(c04timeout(nb), func() string {
 		it := obiiter.MakeIBioSequence()
 		it.Add(1)
 		go func() {
@@ -996,14 +1159,28 @@ func (c04) Exec(line string) (string, []Fail) {
 		var err error
 		var raw []byte
 		closes, afterClose := 1, 0
-		if c.paired {
+		var calls []int
+		old := []byte("OLD\n")
+		if c.ap == 2 {
+			old = bytes.Repeat([]byte("stale bytes of a previous run\n"), 4000)
+		}
+		if c.paired || c.ap > 0 {
 			dir, e := os.MkdirTemp("", "c04p")
 			if e != nil {
 				return "tmp-err"
 			}
 			defer os.RemoveAll(dir)
 			f1, f2 := filepath.Join(dir, "fwd"), filepath.Join(dir, "rev")
-			po := append(append([]obiformats.WithOption{}, opts...), obiformats.WritePairedReadsTo(f2))
+			po := append([]obiformats.WithOption{}, opts...)
+			if c.paired {
+				po = append(po, obiformats.WritePairedReadsTo(f2))
+			}
+			if c.ap > 0 {
+				os.WriteFile(f1, old, 0644)
+				if c.paired {
+					os.WriteFile(f2, old, 0644)
+				}
+			}
 			switch w {
 			case "fasta":
 				ni, err = obiformats.WriteFastaToFile(src, f1, po...)
@@ -1020,7 +1197,19 @@ func (c04) Exec(line string) (string, []Fail) {
 			c04drain(c, ni)
 			obiiter.WaitForLastPipe()
 			raw, _ = os.ReadFile(f1)
-			pairedOut, _ = os.ReadFile(f2)
+			if c.paired {
+				pairedOut, _ = os.ReadFile(f2)
+			}
+			if c.ap == 1 {
+				// append mode: what was in the files stays in front of the output
+				if !bytes.HasPrefix(raw, old) || (c.paired && !bytes.HasPrefix(pairedOut, old)) {
+					return "append-lost-old-content"
+				}
+				raw = raw[len(old):]
+				if c.paired {
+					pairedOut = pairedOut[len(old):]
+				}
+			}
 		} else {
 			out := &sink{}
 			switch w {
@@ -1042,6 +1231,7 @@ func (c04) Exec(line string) (string, []Fail) {
 			defer out.mu.Unlock()
 			raw = append([]byte{}, out.buf.Bytes()...)
 			closes, afterClose = out.closes, out.afterClose
+			calls = append([]int{}, out.calls...)
 		}
 		if c.z {
 			var e error
@@ -1086,6 +1276,28 @@ func (c04) Exec(line string) (string, []Fail) {
 		}
 		if c.paired {
 			r += " out2=" + hx(pairedOut)
+		}
+		if !c.z && !c.paired && c.ap == 0 {
+			// the Write calls received by the output: the buffering decisions of Wfile's bufio.Writer
+			ws := make([]string, len(calls))
+			direct := false
+			for i, n := range calls {
+				ws[i] = strconv.Itoa(n)
+				if n > 4096 {
+					direct = true
+				}
+			}
+			if direct {
+				stat("wfile: chunk written directly (buffer empty, chunk > 4096)")
+			}
+			if len(calls) > 1 {
+				stat("wfile: several Write calls reach the output")
+			}
+			if len(ws) == 0 {
+				r += " wr=~"
+			} else {
+				r += " wr=" + strings.Join(ws, ",")
+			}
 		}
 		return r
 	})
@@ -1516,4 +1728,129 @@ func c04Paired(c *c04case, fwd, rev []byte, all, mates []c04rec) []Fail {
 		stat("paired:mates checked")
 	}
 	return nil
+}
+
+func c04timeout(nb int) time.Duration {
+	if nb > 1000 {
+		return 120 * time.Second
+	}
+	return 20 * time.Second
+}
+
+// c04autoKeys is the naive reference of `obicsv --auto`: the attribute keys of the records whose value is not a map, sorted
+func c04autoKeys(rs []c04rec) []string {
+	seen := map[string]bool{}
+	var ks []string
+	for _, r := range rs {
+		for _, e := range r.ann {
+			if e.v.kind != 'm' && !seen[e.k] {
+				seen[e.k] = true
+				ks = append(ks, e.k)
+			}
+		}
+	}
+	for i := 1; i < len(ks); i++ { // insertion sort, byte order
+		for j := i; j > 0 && ks[j] < ks[j-1]; j-- {
+			ks[j], ks[j-1] = ks[j-1], ks[j]
+		}
+	}
+	return ks
+}
+
+// c04cmdParent runs the case in a child process of this harness and returns the child's result
+func c04cmdParent(gen string) string {
+	exe, err := os.Executable()
+	if err != nil {
+		return "child-err"
+	}
+	cmd := exec.Command(exe, "C04", "exec")
+	cmd.Env = append(os.Environ(), "C04_CHILD=1")
+	cmd.Stdin = strings.NewReader(gen + "\n")
+	outb, err := cmd.Output()
+	if err != nil {
+		return "child-err"
+	}
+	for _, l := range strings.Split(string(outb), "\n") {
+		if strings.HasPrefix(l, "C\t") {
+			f := strings.Split(l, "\t")
+			if len(f) >= 3 {
+				return f[2]
+			}
+		}
+	}
+	return "child-no-result"
+}
+
+// c04cmdChild: the paired stream written by obiconvert.CLIWriteBioSequences under a command line parsed by the real
+// option parser (`--skip-empty` when se=1, the output format, `--compress` when z=1, `--out`)
+func c04cmdChild(c *c04case) string {
+	dir, e := os.MkdirTemp("", "c04c")
+	if e != nil {
+		return "tmp-err"
+	}
+	defer os.RemoveAll(dir)
+	ext := map[string]string{"fasta": "fasta", "fastq": "fastq", "json": "json"}[c.w]
+	if ext == "" {
+		return "bad-op"
+	}
+	av := []string{"verif", "--" + c.w + "-output", "--out", filepath.Join(dir, "o."+ext)}
+	if c.se {
+		av = append(av, "--skip-empty")
+	}
+	if c.z {
+		av = append(av, "--compress")
+	}
+	opt := obiformats.MakeOptions(c.options())
+	return guardT(20*time.Second, func() string {
+		_, rest := obioptions.GenerateOptionParser(obiconvert.OptionSet)(av)
+		if len(rest) != 0 {
+			return "rest"
+		}
+		it := obiiter.MakeIBioSequence()
+		it.Add(1)
+		go func() {
+			for _, a := range c.arrival {
+				rs := c.records(a, opt)
+				b := c04batch(a.order, rs)
+				mb := make([]c04rec, len(rs))
+				for j := range mb {
+					mb[j] = c04Record(a.order+1000, j, 0, c.flavour, c.withQual)
+					mb[j].id = rs[j].id
+				}
+				m := c04batch(a.order, mb)
+				for j, s := range b.Slice() {
+					s.PairTo(m.Slice()[j])
+				}
+				it.Push(b)
+			}
+			it.Done()
+		}()
+		go it.WaitAndClose()
+		it.MarkAsPaired()
+		if _, err := obiconvert.CLIWriteBioSequences(it, true); err != nil {
+			return "err"
+		}
+		obiiter.WaitForLastPipe()
+		f1, f2 := obiconvert.BuildPairedFileNames(filepath.Join(dir, "o."+ext))
+		raw, _ := os.ReadFile(f1)
+		rev, _ := os.ReadFile(f2)
+		if c.z {
+			var e error
+			if raw, e = c04gunzip(raw); e != nil {
+				return "closes=1 out=gunzip-error"
+			}
+			if rev, e = c04gunzip(rev); e != nil {
+				return "closes=1 out=gunzip-error-paired"
+			}
+		}
+		r := "closes=1 out=" + hx(raw)
+		if c.w == "json" {
+			if t, ok := c04compactJSON(raw); ok {
+				r += " dec=" + hx([]byte(t))
+			} else {
+				r += " dec=error"
+			}
+		}
+		return r + " out2=" + hx(rev)
+	})
 }
